@@ -39,7 +39,10 @@ def run_td7_case(case):
     tr.snap_enabled = False
     calls = []  # chronological: ("assess", args, out) / ("train", epoch) / ("copy",)
     in_train = [0]
+    ckpt = [None]  # the evaluation checkpoint, known from its first copy on
     assess_c = contracted()
+    # before any copy the checkpoint is a copy of the initial embedding / actor
+    initial = (tr.digest_of(run.kwargs["embedding"]), tr.digest_of(run.kwargs["actor"]))
 
     def assess(*a, **kw):
         out = assess_c(*a, **kw)
@@ -62,6 +65,9 @@ def run_td7_case(case):
             return orig_train(*a, **kw)
         finally:
             in_train[0] -= 1
+            if ckpt[0] is not None:
+                calls[-1]["ckpt"] = (tr.digest_of(ckpt[0].embedding),
+                                     tr.digest_of(ckpt[0].actor))
         del policy_target
 
     orig_hard = td7mod.hard_target_net_update
@@ -69,8 +75,11 @@ def run_td7_case(case):
     def hard(net, target):
         out = orig_hard(net, target)
         if not in_train[0]:
+            ckpt[0] = target
             calls.append(dict(k="copy", n=tr.n_steps,
-                              src=tr.digest_of(net), dst=tr.digest_of(target)))
+                              src=tr.digest_of(net), dst=tr.digest_of(target),
+                              ckpt=(tr.digest_of(target.embedding),
+                                    tr.digest_of(target.actor))))
         return out
 
     patches = [(td7mod, "assess_performance_and_checkpoint", assess),
@@ -81,6 +90,30 @@ def run_td7_case(case):
     if not ok:
         return res
     res.see("td7_runs")
+    # the evaluation checkpoint is replaced only by the flagged copies
+    last = initial
+    for c in calls:
+        if c["k"] == "copy":
+            last = c["ckpt"]
+        elif "ckpt" in c:
+            if c["ckpt"] != last:
+                part = "embedding" if c["ckpt"][0] != last[0] else "actor"
+                res.violation("C15/td7/checkpoint_changed_outside_copy",
+                              f"the evaluation checkpoint's {part} changed during "
+                              f"training iteration {c['epoch']} (env step {c['n']}), "
+                              f"not by a flagged checkpoint update")
+                return res
+            res.see("td7_checkpoint_stability_checks")
+    final = (tr.digest_of(result.fixed_embedding), tr.digest_of(result.actor))
+    if final != last:
+        part = "fixed_embedding" if final[0] != last[0] else "actor"
+        res.violation("C15/td7/returned_checkpoint",
+                      f"the returned {part} is not the evaluation checkpoint as of "
+                      f"its last flagged update"
+                      + ("" if ckpt[0] is not None else " (never updated: should "
+                         "equal the initial networks)"))
+        return res
+    res.see("td7_returned_checkpoint_checks")
     # episode lengths / returns from the environment log
     eps = []
     cur_len, cur_ret = 0, 0.0
